@@ -19,7 +19,7 @@ for n in "${names[@]}"; do
   ( cd $MX/repo && git checkout -q -- . && git apply "$P" ) || { echo "$n APPLY-FAILED"; continue; }
   for id in $ID $extra; do
     ( cd $MX/verif && VERIF_DIR=$MX/verif ./run.sh $id quick > $MX/logs/$n.$id.log 2>&1 ); rc=$?
-    first=$(grep -A2 -E "^--- violation 0 " $MX/logs/$n.$id.log | grep detail | cut -c1-160)
+    first=$(grep -a -A2 -E "^--- violation 0 " $MX/logs/$n.$id.log | grep -a detail | cut -c1-160)
     echo "$n $id exit=$rc $first"
   done
   ( cd $MX/repo && git checkout -q -- . )
